@@ -58,6 +58,8 @@ type c03Case struct {
 	// Over: the durable session begins by TAKING OVER a connected clean session of the same client id: from the CONNACK
 	// on it is as durable as any other
 	Over bool `json:"over,omitempty"`
+	// Alias: the (v5) subscriber announces Topic Alias Maximum 5: its QoS 1/2 deliveries go through the writer's alias copy
+	Alias bool `json:"alias,omitempty"`
 }
 
 type c03Wire struct {
@@ -190,6 +192,7 @@ func (p *c03Prop) Gen(r *Rng, i int, tier string) interface{} {
 	online := true
 	reconnects := p.id == "C02" || r.Chance(50)
 	c.Over = reconnects && r.Chance(20)
+	c.Alias = c.V5 && r.Chance(30)
 	for k := 0; k < n; k++ {
 		x := r.Intn(100)
 		switch {
@@ -451,6 +454,9 @@ func (p *c03Prop) Run(ci interface{}) interface{} {
 		if c.V5 {
 			o.Expiry = &forever
 			o.RecvMax = uint16(rm)
+			if c.Alias {
+				o.AliasMax = 5
+			}
 		}
 		if _, err := cl.Connect(o); err != nil {
 			return nil, err
